@@ -566,6 +566,61 @@ def make_points(truth, rng, n_rand, n_bnd, eps):
     return np.round(np.array(P, dtype=float).reshape(-1, 2) * GRID) / GRID
 
 
+# ------------------------------------------------------------------ memory layouts
+def _layout(X, how):
+    """a view / copy with the same logical content as the C-contiguous 2-d (or 3-d) array X but another memory layout"""
+    if how == 'C':
+        return X
+    if how == 'F':
+        return np.asfortranarray(X)
+    if how == 'T':                      # transposed view of a C-contiguous array
+        axes = tuple(range(X.ndim))[::-1]
+        return np.ascontiguousarray(X.transpose(axes)).transpose(axes)
+    if how == 'neg':                    # negative strides on every axis
+        sl = (slice(None, None, -1),) * X.ndim
+        return np.ascontiguousarray(X[sl])[sl]
+    if how == 'slice':                  # non-contiguous: every second row, every third column of a larger array
+        big = np.full(tuple(2 * n for n in X.shape[:-1]) + (3 * X.shape[-1],), np.nan)
+        sl = (slice(None, None, 2),) * (X.ndim - 1) + (slice(None, None, 3),)
+        big[sl] = X
+        return big[sl]
+    if how == 'roll':                   # axes rolled: view of an array stored with the last axis first
+        return np.ascontiguousarray(np.moveaxis(X, -1, 0)).transpose(tuple(range(1, X.ndim)) + (0,))
+    raise ValueError(how)
+
+
+LAYOUT_COMBOS = [('F', 'F'), ('T', 'T'), ('F', 'C'), ('C', 'T'), ('T', 'F'), ('neg', 'neg'), ('slice', 'slice'), ('neg', 'slice'), ('C', 'neg'),
+                 ('roll', 'roll'), ('roll', 'C')]
+
+
+def layout_problems(fn, arrs, ref):
+    """fn(list of arrays) -> boolean array; arrs: 1-d float arrays of equal length; ref = fn on the 1-d arrays.
+    Every combination of memory layouts (Fortran order, transposed views, negative strides, non-contiguous slices, mixed between the
+    coordinate arrays) of the same logical 2-d / 3-d arrays must give the same answer element by element."""
+    out = []
+    n = len(arrs[0])
+    shapes = []
+    if n >= 4:
+        m = (n // 2) * 2
+        shapes.append((m, (2, m // 2)))
+    if n >= 8:
+        m = (n // 4) * 4
+        shapes.append((m, (2, m // 4, 2)))
+    for m, shp in shapes:
+        base = [np.ascontiguousarray(a[:m].reshape(shp)) for a in arrs]
+        want = np.asarray(ref)[:m].reshape(shp)
+        for combo in LAYOUT_COMBOS:
+            hows = [combo[i % 2] if i < 2 else combo[0] for i in range(len(arrs))]
+            try:
+                got = np.asarray(fn([_layout(b, h) for b, h in zip(base, hows)]))
+            except Exception as e:
+                out.append('%s %s: raised %s' % (shp, '/'.join(hows), type(e).__name__))
+                continue
+            if got.shape != tuple(shp) or not np.array_equal(got.astype(bool), want):
+                out.append('%s %s' % (shp, '/'.join(hows)))
+    return out
+
+
 # ------------------------------------------------------------------ the core comparison
 def pmodel(R, lines, nproc=None):
     """R.model over several driver processes at once (the extracted model's exact integer arithmetic is slow; cases are independent)"""
@@ -615,6 +670,11 @@ class Batch:
             R.fail('oracle', small, {'why': 'contains() differs from the exact geometry away from the boundary', 'point': P[i].tolist(),
                                     'contains': bool(impl[i]), 'truth_inside': orc[i] == 1, 'eps': float(eps), 'n_bad': len(bad)},
                    key=None)
+        # memory layout of the point arrays
+        lp = layout_problems(lambda a_: roi.contains(a_[0], a_[1]), [P[:, 0], P[:, 1]], impl)
+        if lp:
+            R.fail('oracle', dict(case, layout=lp[0]), {'why': 'contains() depends on the memory layout of the point arrays (compared element by element '
+                                                       'with the C-ordered result)', 'layouts': lp[:6]}, key=None)
         # copy() / save-restore inside the sequence: every tracked object must have stayed identical to the latest clone
         if info.problems:
             small_ops = shrink_problem(spec, ops)
@@ -1061,6 +1121,8 @@ def stream_shapes(R):
         got = roi.contains(float(x[3]), float(y[3]))
         if bool(np.asarray(got)) != bool(ref[3]):
             probs.append('scalar')
+        # memory layouts
+        probs += ['layout ' + v for v in layout_problems(lambda a_: roi.contains(a_[0], a_[1]), [x, y], ref)[:3]]
         # copy
         cp = roi.copy()
         if not np.array_equal(np.asarray(cp.contains(x, y)), ref):
@@ -1321,6 +1383,11 @@ def stream_projected_structured(R):
                 continue
             if not np.array_equal(two.ravel(), one):
                 R.fail('oracle', dict(case, points=xyz.tolist()), {'why': 'contains3d depends on the array shape'})
+            lp = layout_problems(lambda a_: proj.contains3d(a_[0], a_[1], a_[2]), [xyz[:, 0], xyz[:, 1], xyz[:, 2]], one)
+            lp += ['forwarded contains: ' + v for v in layout_problems(lambda a_: proj.contains(a_[0], a_[1]), [xyz[:, 0], xyz[:, 1]],
+                                                                       np.asarray(proj.contains(xyz[:, 0], xyz[:, 1])))]
+            if lp:
+                R.fail('oracle', dict(case, points=xyz.tolist(), layout=lp[0]), {'why': 'Projected3dROI result depends on the memory layout of the point arrays', 'layouts': lp[:6]})
             eps, overd, scr = proj_oracle(m, xyz, truth, info)
             bad = [j for j, (v, b) in enumerate(zip(overd, one)) if v != 2 and bool(b) != (v == 1)]
             if bad:
@@ -1357,7 +1424,6 @@ def stream_projected_structured(R):
 def stream_categorical(R):
     from glue.core import roi as R_
     from glue.core.state import GlueSerializer, GlueUnSerializer
-    labels = ['a', 'b', 'c', 'd', 'e']
     cases = []
     for r in range(0, 4):
         for cats in itertools.permutations(range(5), r):
@@ -1367,10 +1433,13 @@ def stream_categorical(R):
     for cats in cases:
         lines.append(enc((3, [(0, sorted(set(cats))), (0, list(range(5)))])))
     outs = R.model(lines)
-    for cats, o in zip(cases, outs):
+    # two label sets: equal width; different widths with labels that are prefixes of each other, a trailing blank, non-ASCII
+    LABELSETS = [['a', 'b', 'c', 'd', 'e'], ['a', 'ab', 'abc', 'abd ', 'ab\u00e9x']]
+    for ic, (cats, o) in enumerate(zip(cases + cases, outs + outs)):
+        labels = LABELSETS[0 if ic < len(cases) else 1]
         roi = R_.CategoricalROI([labels[c] for c in cats]) if cats else R_.CategoricalROI()
         x = np.array(labels)
-        case = {'stream': 'categorical', 'categories': list(cats)}
+        case = {'stream': 'categorical', 'categories': list(cats), 'labels': labels}
         try:
             got = np.asarray(roi.contains(x, None)).astype(bool)
             got2 = np.asarray(roi.contains(x.reshape(5, 1), None)).astype(bool).ravel()
@@ -1381,7 +1450,7 @@ def stream_categorical(R):
             R.fail('oracle', case, {'why': 'implementation raised %s: %s' % (type(e).__name__, e)})
             continue
         want = [c in cats for c in range(5)]
-        R.count(('cat', cats), nontrivial=0 < len(set(cats)) < 5, stream='categorical', kind='categorical')
+        R.count(('cat', cats, ic < len(cases)), nontrivial=0 < len(set(cats)) < 5, stream='categorical', kind='categorical')
         if got.tolist() != want or got2.tolist() != want or cp.tolist() != want or got3.tolist() != want:
             R.fail('oracle', case, {'why': 'CategoricalROI.contains is not membership (direct / reshaped / copy / restored)',
                                    'contains': got.tolist(), 'reshaped': got2.tolist(), 'copy': cp.tolist(), 'restored': got3.tolist()})
@@ -1436,6 +1505,9 @@ def stream_subset_state(R):
             ok = mask.shape == tuple(shape) and np.array_equal(mask, ref)
             view = tuple(slice(0, None, 2) for _ in shape)
             ok = ok and np.array_equal(st.to_mask(d, view), ref[view])
+            if len(shape) > 1:          # the same values held in Fortran order / as a transposed view
+                dF = Data(x=np.asfortranarray(P[:, 0].reshape(shape)), y=np.ascontiguousarray(P[:, 1].reshape(shape).T).T)
+                ok = ok and np.array_equal(RoiSubsetState(dF.id['x'], dF.id['y'], roi).to_mask(dF), ref)
             # pixel-space shortcut: region over two pixel axes of a 3-d cube, shifted to cover the pixel lattice
             d3 = Data(v=np.zeros((3, 6, 7)))
             roi2, truth2, _ = run_impl(spec, (('move', F(3), F(5, 2)),))
